@@ -165,7 +165,12 @@ def after_loop_probe(rng, rows):
         elif r["type"] in ("end_for", "end_block"):
             depth -= 1
             if r["type"] == "end_for" and depth == 0 and rng.random() < 0.5:
-                rows.insert(i + 1, {"row_id": f"after{i}", "type": "send_message", "from": "", "message_text": "after loop [{{v0}}]"})
+                # the loop's own variable or its index variable (whatever they were called, whatever they last held)
+                j = max(k for k in range(i) if rows[k]["type"] == "begin_for" and sum(
+                    (1 if x["type"] in ("begin_for", "begin_block") else -1 if x["type"] in ("end_for", "end_block") else 0)
+                    for x in rows[k:i + 1]) == 0)
+                names = [n for n in str(rows[j].get("loop_variable", "")).split(";") if n] or ["v0"]
+                rows.insert(i + 1, {"row_id": f"after{i}", "type": "send_message", "from": "", "message_text": "after loop [{{%s}}]" % rng.choice(names)})
                 return rows
     return rows
 
